@@ -3,11 +3,13 @@ import PsutilModel.Base.Proto
 import PsutilModel.Model.C10Gen
 import PsutilModel.Model.C10Front
 import PsutilModel.Model.C10Conc
+import PsutilModel.Model.C10Dict
 import PsutilModel.Spec.C10
 open Lean Psutil Psutil.Proto Psutil.C10
 
 structure DSt where
   st : St
+  cst : CSt                       -- the same history on the concrete dicts (Model/C10Dict)
   hist : List Op                  -- chronological, `_WrapNumbers` level
   fhist : List (FOp × Out)        -- public operations, newest first, with the promised result
 
@@ -49,6 +51,48 @@ def jOut : Out → Json
   | .total f => jObj [("kind", "total"), ("fields", jList jNat f)]
   | .indexError => jObj [("kind", "exc"), ("exc", "IndexError")]
   | .unit => jObj [("kind", "unit")]
+
+def jCOut : COut → Json
+  | .out o => jOut o
+  | .keyError => jObj [("kind", "exc"), ("exc", "KeyError")]
+  | .assertionError => jObj [("kind", "exc"), ("exc", "AssertionError")]
+
+/-- the `name` string of a cache slot, as extracted from the source -/
+def nameStr : C10.Name → String
+  | .disk => Gen.C10.diskName | .net => Gen.C10.netName | .diskPer => Gen.C10.diskPerName
+
+def jRemD (d : RemD) : Json := jList (fun e => Json.arr #[Json.str e.1.1, jNat e.1.2, jNat e.2]) d
+def jRemK (rk : RemK) : Json :=
+  jList (fun e => Json.arr #[Json.str e.1, jList (fun p => Json.arr #[Json.str p.1, jNat p.2]) e.2]) rk
+
+/-- `cache_info()` of the concrete model -/
+def jInfo (s : CSt) : Json :=
+  let i := cacheInfo s
+  jObj [("cache", jList (fun e => Json.arr #[Json.str (nameStr e.1), jRaw e.2]) i.cache),
+        ("reminders", jList (fun e => Json.arr #[Json.str (nameStr e.1), jRemD e.2]) i.reminders),
+        ("keys", jList (fun e => Json.arr #[Json.str (nameStr e.1), jRemK e.2]) i.reminderKeys)]
+
+/-- what `cache_info()` must show according to the history alone (C10_cache_info_reflects): per name
+    with a `nowrap=True` snapshot since its last clear — the newest snapshot, and the non-zero
+    wrap sums of the devices listed in it as `[k, i, sum]` -/
+def jInfoSpec (h : List Op) : Json :=
+  let names := allNames.filter fun n => !(Spec.snapsOf n h).isEmpty
+  let sums (n : C10.Name) : List (Key × Nat × Nat) :=
+    let snaps := Spec.snapsOf n h
+    match snaps with
+    | [] => []
+    | r :: _ => r.flatMap fun kv =>
+        (List.range kv.2.length).filterMap fun i =>
+          let v := Spec.wrapSum i (Spec.epochVals kv.1 snaps)
+          if v = 0 then none else some (kv.1, i, v)
+  jObj [("cache", jList (fun n => Json.arr #[Json.str (nameStr n), jRaw ((Spec.snapsOf n h).headD [])]) names),
+        ("sums", jList (fun n => Json.arr #[Json.str (nameStr n),
+            jList (fun e => Json.arr #[Json.str e.1, jNat e.2.1, jNat e.2.2]) (sums n)]) names)]
+
+/-- result of a public call on the concrete dicts, shaped like the front end does -/
+def cshape (perdev : Bool) : COut → COut
+  | .out o => .out (shape perdev o)
+  | e => e
 
 def specOp (h : List Op) : Op → Out
   | .call n nowrap raw =>
@@ -115,7 +159,10 @@ def jOuts (l : List (Nat × Out)) : Json := jList (fun p => Json.arr #[jNat p.1,
 def handle (d : DSt) (j : Json) : R (DSt × Json) := do
   let op ← strF j "op"
   if op == "reset" then
-    return (⟨St.init, [], []⟩, ok (Json.str "reset"))
+    return (⟨St.init, CSt.init, [], []⟩, ok (Json.str "reset"))
+  if op == "names" then
+    return (d, jObj [("disk", Json.str (nameStr .disk)), ("net", Json.str (nameStr .net)),
+                     ("diskper", Json.str (nameStr .diskPer))])
   if op == "sched" then
     let acts ← field j "acts" >>= asList parseAct
     match runC cfg Sys.init acts with
@@ -139,6 +186,11 @@ def handle (d : DSt) (j : Json) : R (DSt × Json) := do
         pure (FOp.clear fn)
       else pure FOp.clearAll)
     let (s', out) := fstep cfg d.st fo
+    let (cs', cout) : CSt × COut := match fo with
+      | .call c =>
+        let r := cstep cfg d.cst (.call (slotOf cfg c.fn c.perdev) c.nowrap (platRaw cfg c.fn c.perdev c.listing))
+        (r.1, cshape c.perdev r.2)
+      | fo => (crunAll cfg d.cst (lower cfg fo), .out .unit)
     let spec : Out := match fo with
       | .call c => specCall d.hist c
       | _ => .unit
@@ -147,8 +199,12 @@ def handle (d : DSt) (j : Json) : R (DSt × Json) := do
                     ("slot", jName (slotOf cfg c.fn c.perdev)),
                     ("handed", jRaw (platRaw cfg c.fn c.perdev c.listing))]
       | _ => []
-    return (⟨s', d.hist ++ lower cfg fo, (fo, spec) :: d.fhist⟩,
-            jObj ([("model", jOut out), ("spec", jOut spec)] ++ extra))
+    let hist' := d.hist ++ lower cfg fo
+    let wantInfo := match j.getObjVal? "info" with | .ok (.bool b) => b | _ => false
+    let info : List (String × Json) :=
+      if wantInfo then [("info", jInfo cs'), ("info_spec", jInfoSpec hist')] else []
+    return (⟨s', cs', hist', (fo, spec) :: d.fhist⟩,
+            jObj ([("model", jOut out), ("cmodel", jCOut cout), ("spec", jOut spec)] ++ info ++ extra))
   let o : Op ← (
     if op == "call" then do
       let n ← strF j "name" >>= parseName
@@ -161,6 +217,9 @@ def handle (d : DSt) (j : Json) : R (DSt × Json) := do
     else if op == "clearall" then pure Op.clearAll
     else .error s!"unknown op {op}")
   let (s', out) := step cfg d.st o
-  return (⟨s', d.hist ++ [o], d.fhist⟩, jObj [("model", jOut out), ("spec", jOut (specOp d.hist o))])
+  let (cs', cout) := cstep cfg d.cst o
+  return (⟨s', cs', d.hist ++ [o], d.fhist⟩,
+          jObj [("model", jOut out), ("cmodel", jCOut cout), ("spec", jOut (specOp d.hist o)),
+                ("info", jInfo cs')])
 
-def main : IO Unit := Proto.run (⟨St.init, [], []⟩ : DSt) (total handle)
+def main : IO Unit := Proto.run (⟨St.init, CSt.init, [], []⟩ : DSt) (total handle)
